@@ -182,7 +182,8 @@ class BMSMap(Map[BMSNoteList, BMSHitList, BMSHoldList, BMSBpmList], BMSMapMeta):
 
         # We do this to go in-line with the
         # temporary measure property assigned in _readNotes.
-        bpm = BMSBpm(0, bpm=float(data.pop(b"BPM")))
+        # A file without #BPM starts at the format's default tempo
+        bpm = BMSBpm(0, bpm=float(data.pop(b"BPM", 130)))
 
         log.debug(f"Added initial BPM {bpm.bpm}")
         self.bpms = self.bpms.append(bpm)
